@@ -140,10 +140,10 @@ Print Assumptions C01_straight_line.
 (** * Non-vacuity: a concrete pipeline through the whole interpreter *)
 Definition probe (tag : string) : step :=
   mkstep "vprobe" BProbe (Some [(VStr "ptag", VStr tag)]) None None None
-         (VBool true) (VBool false) (VBool false) None (Some (1, 5)%Z).
+         (VBool true) (VBool false) (VBool false) None (Some (1, 5)%Z) None.
 Definition boom : step :=
   mkstep "vfail" BFail (Some [(VStr "vfail", VDict [(VStr "err", VStr "ValueError"); (VStr "msg", VStr "boom")])])
-         None None None (VBool true) (VBool false) (VBool false) None (Some (2, 5)%Z).
+         None None None (VBool true) (VBool false) (VBool false) None (Some (2, 5)%Z) None.
 Definition lib0 : library :=
   [("main", [("steps", Some [probe "a"; boom; probe "never"]);
              ("on_success", Some [probe "success"]);
